@@ -280,10 +280,11 @@ def bound_pair(draw, n):
     if hi == lo + 1 and draw(st.booleans()):
         k = lo if draw(st.booleans()) else lo - n
         return lo, hi, {"scalar": k}
-    s_opts = [lo] + ([lo - n] if lo < n else []) + ([None] if lo == 0 else [])
+    # negative bounds that reach beyond the start of the axis stop at 0, as for arrays: x[-(n+k):] is x[0:]
+    s_opts = [lo] + ([lo - n] if lo < n else []) + ([None, -n - 1, -n - 7] if lo == 0 else [])
     e_opts = [hi] + ([hi - n] if 0 < hi < n else []) + ([None] if hi == n else [])
     if hi == 0 and lo == 0:
-        e_opts = [0] + ([-n] if n > 0 else [])
+        e_opts = [0] + ([-n, -n - 1, -n - 7] if n > 0 else [])
     # an explicit step of 1 is the same slice ("resolved as for arrays")
     return lo, hi, {"slice": [draw(st.sampled_from(s_opts)), draw(st.sampled_from(e_opts))], "step": draw(st.sampled_from([None, None, 1]))}
 
